@@ -42,11 +42,11 @@ WithoutStash(v, k) == [v EXCEPT !.stash = [x \in (DOMAIN v.stash) \ {k} |-> v.st
 
 \* ---------------------------------------------------------------- configuration
 \* cfg: [role, bs, resetOnLogon, resetOnLogout, resetOnDisconnect, refreshOnLogon, chunk,
-\*       persist, checkLatency, hbOverride, hbCfg]
+\*       persist, checkLatency, hbOverride, hbCfg, resetSeqTime]
 \* bs is the BeginString as a number: 40 41 42 43 44, 50 for FIXT.1.1 (string order of the code)
 DefaultCfg == [role |-> "acc", bs |-> 42, resetOnLogon |-> FALSE, resetOnLogout |-> FALSE,
                resetOnDisconnect |-> FALSE, refreshOnLogon |-> FALSE, chunk |-> 0, persist |-> TRUE,
-               checkLatency |-> TRUE, hbOverride |-> FALSE, hbCfg |-> 30]
+               checkLatency |-> TRUE, hbOverride |-> FALSE, hbCfg |-> 30, resetSeqTime |-> FALSE]
 
 InfEnd(cfg) == IF cfg.bs < 42 THEN 999999 ELSE 0
 
@@ -263,7 +263,9 @@ HandleLogon(s, m) ==
        IN IF vs.rej.k # "ok" THEN [s |-> s1, err |-> vs.rej]
           ELSE
           LET s2 == IF acc /\ ~s1.cfg.hbOverride /\ m.hb # 0 THEN [s1 EXCEPT !.hb = m.hb] ELSE s1
-              s3 == IF acc THEN DropAndSend(s2, Out("A", s2.hb, 0, 0, IF m.rsf = "Y" THEN "Y" ELSE ""))
+              \* a Logon echoing the flag of a reset we started ourselves (ResetSeqTime) is not answered again
+              s3 == IF acc /\ ~(m.rsf = "Y" /\ s2.sentReset)
+                    THEN DropAndSend(s2, Out("A", s2.hb, 0, 0, IF m.rsf = "Y" THEN "Y" ELSE ""))
                     ELSE s2
               s4 == [s3 EXCEPT !.sentReset = FALSE,
                                !.tm = Append(@, <<"peer", s3.hb * 1200>>),
@@ -500,8 +502,16 @@ OnConsume(s0) ==
     LET s == ClearLogs(s0) IN
     IF s.inbuf = <<>> THEN s ELSE IncomingParsed([s EXCEPT !.inbuf = Tail(@)], Head(s.inbuf))
 
+\* session_state.go CheckResetTime when the configured ResetSeqTime has been crossed since the last
+\* check: on a connected session a Logon with ResetSeqNumFlag=Y goes out (sendLogonInReplyTo(true, nil):
+\* the store is reset while the Logon is prepared, so it carries number 1)
+OnResetTick(s0) ==
+    LET s == ClearLogs(s0) IN
+    IF ~s.cfg.resetSeqTime \/ ~IsConnected(s.cur) THEN s
+    ELSE DropAndSend(s, Out("A", s.hb, 0, 0, "Y"))
+
 \* ---------------------------------------------------------------- one step, by event record
-\* ev.k in Connect Incoming Garbled Preload Timeout Stop Disconnected Flush Send
+\* ev.k in Connect Incoming Garbled Preload Timeout Stop Disconnected Flush Send ResetTick
 Step(s, ev) ==
     CASE ev.k = "Connect" -> OnConnect(s)
       [] ev.k = "Incoming" -> OnIncoming(s, ev.m)
@@ -512,6 +522,7 @@ Step(s, ev) ==
       [] ev.k = "Disconnected" -> OnDisconnected(s)
       [] ev.k = "Flush" -> OnFlush(s)
       [] ev.k = "Send" -> OnSend(s, ev.a)
+      [] ev.k = "ResetTick" -> OnResetTick(s)
 
 \* what the driver reads back from the real session after every step
 StateName(v) == IF v.p THEN "pending(" \o v.n \o ")" ELSE v.n
